@@ -359,7 +359,8 @@ static void *foreign_thread(void *arg) {
     foreign_t *f = arg;
     m_mod_t *mine = NULL, *mod = f->mod;
     static int dummy;
-    if (f->own) { m_mod_hook_t hk = {.on_evt = f_evt}; m_ctx_register("foreign", M_CTX_PERSIST, NULL); m_mod_register("fmod", &mine, &hk, 0, NULL); }
+    /* the foreign context holds a namesake of the target module (a name is only unique within a context) */
+    if (f->own) { m_mod_hook_t hk = {.on_evt = f_evt}; m_ctx_register("foreign", M_CTX_PERSIST, NULL); m_mod_register(m_mod_name(mod), &mine, &hk, 0, NULL); m_mod_start(mine); }
     const char *op = f->op;
     long r = -9999;
     if (!strcmp(op, "start")) r = m_mod_start(mod);
